@@ -2,6 +2,7 @@
 import sys
 
 from sa import rules_state as RSTATE
+from sa import rules_r10 as R10
 from sa import rules_r6b as R6B
 from sa import report, effects as E, rules_registry as RR, rules_confine as RC
 from sa import rules_repr as RREPR
@@ -47,6 +48,7 @@ def run(ctx, repo):
     ctx.call(R6B.r_no_codec_lookup, repo)
     ctx.call(R6B.r_constructor_kind_checked, repo, ['loader.FullLoader'])
     ctx.call(RSTATE.r_directives_reset, repo)
+    ctx.call(R10.r_lookup_runs_no_code, repo)
     ctx.call(R6B.r_no_import_machinery, repo)
     ctx.call(R6B.r_no_module_getattr, repo)
 
